@@ -65,6 +65,9 @@ SCENARIOS = {
     'drop_inside': dict(callers=[[M((1, 0.5), (2, 0.5), (3, 0))], [('comm', 4), ('sleep', 4), ('comm', 5)]],
                         drop_at=0.7, refuse=1, callbacks=2, horizon=30),
     'wait_before': dict(callers=[[('comm', 1), ('comm', 2)], [('comm', 3)]], wait_before=0.3, behaviour={2: ('late', 2.2)}),
+    # one command made of several lines: wait_before is respected before each line
+    'wait_before_lines': dict(callers=[[('lines', [1, 2, 3]), ('comm', 4)], [('comm', 5), ('lines', [6, 7])]], wait_before=0.3,
+                              behaviour={1: ('noreply',), 2: ('noreply',), 6: ('noreply',)}),
     # commands without reply: writeline, multicomm elements without reply, multicomm given as plain strings
     'write_mix': dict(callers=[[('write', 1), ('comm', 2), ('write', 3)],
                                [('multi', [(4, False, 0.3), (5, True, 0), (6, False, 0)]), ('comm', 7)]],
